@@ -168,6 +168,9 @@ func (f *Frame) doCall(instr ssa.Instruction, c *ssa.CallCommon, args []Value, r
 			o.Text = site.Cl.Text
 			o.Pos = e.p.posString(instr.Pos())
 			e.siteHits[si]++
+			// assert-then-assume: the clause is an obligation of its own, so later obligations may use it as a lemma
+			// (this is what lets a long chain of position updates be proved one step at a time)
+			e.assume(implies(f.guard, t))
 		}
 	}
 	res := f.dispatchCall(instr, c, args, rt, fnv, name)
@@ -438,8 +441,10 @@ func (f *Frame) applyContract(instr ssa.Instruction, ct *Contract, c *ssa.CallCo
 		for _, m := range ct.Modifies {
 			f.havocModifies(env, m, ct)
 		}
-	} else if ct.Assumed {
-		// assumed contracts without a modifies clause behave like unknown calls on memory
+	} else {
+		// a contract without a modifies clause says nothing about memory: like an unknown call, the callee may write
+		// whatever is reachable from its arguments (A4). Only a modifies clause (proved by the callee's frame
+		// obligations, or trusted for an assumed contract) lets a caller keep facts about argument-reachable memory.
 		f.havocArgs(c, args)
 	}
 	e.bumpWm(f.st)
@@ -542,6 +547,8 @@ type modTarget struct {
 	region *Term  // element-heap region allowed to change
 	obj    *Term  // object whose fields may change (all fields, or only field when heap != "")
 	heap   string // field heap name for field-level targets
+	eheap  string // element heap of a slice whose element is pointed to (interior pointer target)
+	ehsort Sort
 	typ    types.Type
 	val    Term
 }
@@ -561,6 +568,22 @@ func (env *SpecEnv) modTargets(m string) ([]modTarget, error) {
 	cl, err := parseClause(m)
 	if err != nil {
 		return nil, err
+	}
+	// a pointer that is the address of a slice element (&s[i]) or of a field inside one: the pointee lives in the
+	// element heap of that slice, so the target is (coarsely) the whole region of the slice in that heap
+	interior := func(v SpecVal) *modTarget {
+		if a := v.V.Addr; a != nil && strings.HasPrefix(a.heap, "HE_") && len(a.keys) >= 1 {
+			r := a.keys[0]
+			return &modTarget{region: &r, eheap: a.heap, ehsort: a.hsort}
+		}
+		return nil
+	}
+	if sel, ok := cl.Expr.(*ast.SelectorExpr); ok {
+		if base, err := env.eval(sel.X); err == nil {
+			if t := interior(base); t != nil {
+				return []modTarget{*t}, nil
+			}
+		}
 	}
 	if sel, ok := cl.Expr.(*ast.SelectorExpr); ok && !contents {
 		base, err := env.eval(sel.X)
@@ -582,6 +605,9 @@ func (env *SpecEnv) modTargets(m string) ([]modTarget, error) {
 	if err != nil {
 		return nil, err
 	}
+	if t := interior(v); t != nil {
+		return []modTarget{*t}, nil
+	}
 	if v.T.Sort == SSlice {
 		r := sReg(v.T)
 		return []modTarget{{region: &r, typ: v.Typ, val: v.T}}, nil
@@ -596,6 +622,11 @@ func (f *Frame) havocModifies(env *SpecEnv, m string, ct *Contract) {
 		f.havocAll()
 		return
 	}
+	if m == "bytes" {
+		hn, hs := e.elemHeapName(SBV8)
+		f.st.heaps[hn] = e.havoc(hn+"_hv", hs)
+		return
+	}
 	ts, err := env.modTargets(m)
 	if err != nil {
 		e.specError(fmt.Sprintf("contract %s modifies %q: %v", ct.Key, m, err))
@@ -603,6 +634,9 @@ func (f *Frame) havocModifies(env *SpecEnv, m string, ct *Contract) {
 	}
 	for _, t := range ts {
 		switch {
+		case t.eheap != "":
+			h := e.heap(f.st, t.eheap, t.ehsort)
+			e.setHeap(f.st, t.eheap, store(h, *t.region, e.havoc(t.eheap+"_hv", arrayElem(t.ehsort))))
 		case t.heap != "":
 			hs := arraySort(SRef, e.sortOf(t.typ))
 			h := e.heap(f.st, t.heap, hs)
@@ -1110,11 +1144,18 @@ func (f *Frame) callEffects(c *ssa.CallCommon, eff *effects, seen map[*ssa.Funct
 			}
 		}
 	}
-	if ct := e.p.contracts.ByKey[name]; ct != nil && !noinline {
+	if ct := e.p.contracts.ByKey[name]; ct != nil {
+		// (noinline only keeps a callee from being inlined; its contract, if any, still describes its effects)
+		_ = noinline
 		if ct.HasMod {
 			for _, m := range ct.Modifies {
 				if m == "*" {
 					eff.all = true
+					continue
+				}
+				if m == "bytes" {
+					hn, hs := e.elemHeapName(SBV8)
+					eff.names[hn] = hs
 					continue
 				}
 				// map the modifies expression to the type of the named parameter (conservative: by type)
@@ -1133,25 +1174,78 @@ func (f *Frame) callEffects(c *ssa.CallCommon, eff *effects, seen map[*ssa.Funct
 					continue
 				}
 				var t types.Type
+				var argv ssa.Value
 				if c.IsInvoke() {
 					if idx == 0 {
-						t = c.Value.Type()
+						argv = c.Value
 					} else {
-						t = c.Args[idx-1].Type()
+						argv = c.Args[idx-1]
 					}
 				} else if idx < len(c.Args) {
-					t = c.Args[idx].Type()
+					argv = c.Args[idx]
 				}
-				if t != nil {
-					f.typeEffects(t, eff, 0)
+				if argv != nil {
+					t = argv.Type()
 				}
+				if t == nil {
+					continue
+				}
+				// &s[i] (or a field inside that element): the pointee lives in the element heap of s
+				inner := argv
+				for {
+					if fa, ok := inner.(*ssa.FieldAddr); ok {
+						inner = fa.X
+						continue
+					}
+					break
+				}
+				if ia, ok := inner.(*ssa.IndexAddr); ok && !strings.HasSuffix(m, "[*]") {
+					if sl, isSlice := ia.X.Type().Underlying().(*types.Slice); isSlice {
+						hn, hs := e.elemHeapName(e.sortOf(sl.Elem()))
+						eff.names[hn] = hs
+						continue
+					}
+				}
+				// x.f / x.f[*] on a pointer-to-struct parameter: that field only
+				form := strings.TrimSuffix(m, "[*]")
+				if k := strings.Index(form, "."); k >= 0 && !strings.HasPrefix(form, "*") && !strings.ContainsAny(form[k+1:], ".[ ") {
+					if pt, ok := t.Underlying().(*types.Pointer); ok {
+						if st, ok := pt.Elem().Underlying().(*types.Struct); ok {
+							done := false
+							for i := 0; i < st.NumFields(); i++ {
+								if st.Field(i).Name() != form[k+1:] {
+									continue
+								}
+								if strings.HasSuffix(m, "[*]") {
+									if fsl, ok := st.Field(i).Type().Underlying().(*types.Slice); ok {
+										hn, hs := e.elemHeapName(e.sortOf(fsl.Elem()))
+										eff.names[hn] = hs
+										done = true
+									}
+								} else {
+									loc := e.fieldLoc(pt.Elem(), i, i64(0))
+									eff.names[loc.heap] = loc.hsort
+									done = true
+								}
+							}
+							if done {
+								continue
+							}
+						}
+					}
+				}
+				f.typeEffects(t, eff, 0)
 			}
-		} else if ct.Assumed {
+		} else {
+			// no modifies clause: like an unknown call (see applyContract)
 			for _, a := range c.Args {
 				if !writesByteArgs(name) && isByteSlice(a.Type()) {
 					continue
 				}
 				f.typeEffects(a.Type(), eff, 0)
+			}
+			if c.IsInvoke() {
+				f.typeEffects(c.Value.Type(), eff, 0)
 			}
 		}
 		eff.alloc = true
